@@ -72,7 +72,11 @@ impl Scenario for KeepAlive {
     }
     fn prelude(&self, w: &mut World) -> Result<(), crate::world::MachineryError> {
         if self.delay == 0 {
-            return w.register(0, "cli", "cu");
+            w.register(0, "cli", "cu")?;
+            // the client holds what the clean-up has to take away: a channel of its own, +i, +w
+            w.send(0, "JOIN #room")?;
+            w.send(0, "MODE cli +i")?;
+            return w.send(0, "MODE cli +w");
         }
         w.connect(0)?;
         for _ in 0..self.delay {
@@ -191,6 +195,12 @@ impl Scenario for KeepAlive {
                     // clean-up of C06
                     if !v.m.users.is_empty() || v.snap.conns_count != 0 {
                         out.push(finding("timeout-cleanup", format!("after the ping timeout the user is still registered: {:?}, connections counted {}", v.m.users.keys().collect::<Vec<_>>(), v.snap.conns_count)));
+                    }
+                    if !v.m.chans.is_empty() {
+                        out.push(finding("timeout-cleanup", format!("after the ping timeout the channel the client was alone on still exists: {:?}", v.m.chans.keys().collect::<Vec<_>>())));
+                    }
+                    for (name, msg) in crate::spec::rep_invariants(&v.snap) {
+                        out.push(finding("timeout-cleanup", format!("after the ping timeout: {}: {}", name, msg)));
                     }
                 }
             }
